@@ -255,14 +255,33 @@ class JumpBudget (object):
     self = JumpBudget.active
     if self is None: return None
     self.count += 1
+    per = self.per
+    per[code] = per.get(code, 0) + 1
     if self.count > self.budget:
       if not self.tripped:
         self.tripped = True
-        self.where = "%s:%s" % (os.path.basename(fn), getattr(code, "co_qualname", code.co_name))
+        self.where = self._spinning(code)
       raise LineBudget.BudgetExceeded()
 
+  def _spinning (self, code):
+    """Name the loop that does not end: the OUTERMOST function on the stack that took a sizeable share of the
+    backward jumps (the owner of a non-terminating loop is on the stack for as long as it spins; functions it
+    calls may loop too, so the innermost frame would make the key depend on where the budget happened to run
+    out).  Falls back to the function with most backward jumps."""
+    share = self.budget // 8
+    f = sys._getframe(2); stack = []
+    while f is not None:
+      stack.append(f.f_code); f = f.f_back
+    hot = None
+    for c in reversed(stack):                # outermost first
+      if self.per.get(c, 0) >= share:
+        hot = c; break
+    if hot is None:
+      hot = max(self.per, key=lambda c: (self.per[c], c.co_filename, c.co_name))
+    return "%s:%s" % (os.path.basename(hot.co_filename), getattr(hot, "co_qualname", hot.co_name))
+
   def __enter__ (self):
-    self.count = 0; self.tripped = False; self.where = None
+    self.count = 0; self.tripped = False; self.where = None; self.per = {}
     JumpBudget.active = self
     return self
 
@@ -569,8 +588,10 @@ def run (cfg):
                      "logging is disabled (the parsers' warnings are not observed)"]
   best = {}
   maxlines = 0
+  samples = []
   for r in pmap(_worker, work_items(cfg), cfg.workers, seed=cfg.seed):
     b = r.extra.pop("_best"); maxlines = max(maxlines, r.extra.pop("_maxlines"))
+    samples.extend(r.samples); r.samples = []
     rep.merge(r)
     for key, (ok, what, replay, cnt) in b.items():
       cur = best.get(key)
@@ -579,7 +600,9 @@ def run (cfg):
       else:
         cur[3] += cnt
         if tuple(ok) < cur[0]: cur[0], cur[1], cur[2] = tuple(ok), what, replay
-  rep.samples.sort(key=repr)
+  samples.sort(key=repr)                      # worker completion order must not show in the evidence
+  step = max(1, len(samples) // 5)
+  for x in samples[::step][:5]: rep.sample(x)
   rep.state_count = rep.evaluations
   rep.extra["max_steps_in_one_phase"] = maxlines
   for key in sorted(best):
@@ -587,6 +610,14 @@ def run (cfg):
     rep.violations[key] = dict(what="%s [frame %s, %d bytes]" % (what, replay["frame"], len(replay["hex"]) // 2),
                                replay=replay, count=cnt)
   return rep
+
+
+def explains (known_key, key):
+  """Exact match; a listed key that ends in '*' explains every key with that prefix (e.g. all raising sites of one
+  parser whose caller lacks a try/except: 'C15:raises:parse:lldp.py:*')."""
+  if known_key.endswith("*"):
+    return key.startswith(known_key[:-1])
+  return known_key == key
 
 
 def replay (cfg, data):
